@@ -384,7 +384,9 @@ class LiteDRAMBISTGenerator(Module, AutoCSR):
                 core.reset.eq(control_cdc.source.valid & control_cdc.source.reset),
                 core.start.eq(control_cdc.source.valid & control_cdc.source.start),
             ]
-            self.sync += [
+            # The control word leaves the AsyncFIFO in the port's clock domain: latch it there.
+            sync_port = getattr(self.sync, clock_domain)
+            sync_port += [
                 If(control_cdc.source.valid,
                     core.base.eq(control_cdc.source.base),
                     core.end.eq(control_cdc.source.end),
@@ -734,7 +736,9 @@ class LiteDRAMBISTChecker(Module, AutoCSR):
                 core.reset.eq(control_cdc.source.valid & control_cdc.source.reset),
                 core.start.eq(control_cdc.source.valid & control_cdc.source.start),
             ]
-            self.sync += [
+            # The control word leaves the AsyncFIFO in the port's clock domain: latch it there.
+            sync_port = getattr(self.sync, clock_domain)
+            sync_port += [
                 If(control_cdc.source.valid,
                     core.base.eq(control_cdc.source.base),
                     core.end.eq(control_cdc.source.end),
